@@ -77,7 +77,16 @@ DiagStep(ev) ==
                ELSE {}),
          {"C14.diagonal_result_has_no_nan", "C14.diagonal_result_is_diagonal_nonnegative"})
 
-Step(ev) == IF ev.diagonal THEN DiagStep(ev) ELSE FullStep(ev)
+(* the init option is a MATRIX: a user array in another memory layout (Fortran-ordered, transposed or strided view) *)
+(* holds the same numbers as its plain C-ordered copy, and the iterations start from those numbers                  *)
+LayoutFails(ev) ==
+  IF "A_c" \in DOMAIN ev /\ ev.exc = ""
+  THEN G("C14.array_init_is_the_same_matrix_in_any_memory_layout",
+         AllFinM(ev.A_given) /\ ApproxM(ev.A_given, ev.A_c, 2, 2, MaxAbsM(ev.A_c)))
+  ELSE {}
+Step(ev) == LET r == IF ev.diagonal THEN DiagStep(ev) ELSE FullStep(ev)
+            IN R(r.fails \cup LayoutFails(ev),
+                 r.ex \cup (IF "A_c" \in DOMAIN ev THEN {"C14.array_init_is_the_same_matrix_in_any_memory_layout"} ELSE {}))
 Init == tid \in 1..Len(Traces) /\ l = 1 /\ fails = {} /\ ex = {}
 Next == /\ l <= Len(Traces[tid].events)
         /\ LET r == Step(Traces[tid].events[l])
